@@ -554,7 +554,7 @@ func runDelReqAuth(c *core.Ctx) {
 
 func runSQLDistinct(c *core.Ctx) {
 	P := c.P
-	build := P.Sqlite.Func("buildEventQuery")
+	build := P.Func(P.Sqlite, "buildEventQuery")
 	if build == nil {
 		c.NoAnchor(nil, "sqlite.buildEventQuery")
 		return
